@@ -347,9 +347,9 @@ func (f Filter) selectReferral(
 
 func (f Filter) failureDetails(resources []*resource.Resource) string {
 	msg := strings.Builder{}
-	msg.WriteString(fmt.Sprintf("\n**** Too many possible referral targets to referrer:\n%s\n", f.Referrer.MustYaml()))
+	msg.WriteString(fmt.Sprintf("\n**** Too many possible referral targets to referrer:\n%s\n", yamlForMessage(f.Referrer)))
 	for i, r := range resources {
-		msg.WriteString(fmt.Sprintf("--- possible referral %d:\n%s\n", i, r.MustYaml()))
+		msg.WriteString(fmt.Sprintf("--- possible referral %d:\n%s\n", i, yamlForMessage(r)))
 	}
 	return msg.String()
 }
@@ -415,4 +415,15 @@ func (f Filter) confirmNodeMatchesReferrer(node *yaml.RNode) error {
 		return err
 	}
 	return nil
+}
+
+// yamlForMessage renders a resource for an error message. Unlike Resource.MustYaml
+// it does not end the process when the resource cannot be marshalled (e.g. a
+// duplicated mapping key): the marshalling error is shown instead.
+func yamlForMessage(r *resource.Resource) string {
+	yml, err := r.AsYAML()
+	if err != nil {
+		return "<" + err.Error() + ">"
+	}
+	return string(yml)
 }
